@@ -281,7 +281,6 @@ func (c *lbCtx) fieldLB(n *types.Named, f string) (int64, bool) {
 	return 0, true
 }
 
-
 // storeExceedsField: the store `x.f = v` executes only on a branch edge implying v >= (the value of
 // x.f loaded in the same function from the same object).
 func (c *lbCtx) storeExceedsField(st *ssa.Store, n *types.Named, f string) bool {
